@@ -63,7 +63,9 @@ def matches(spec, exists):
     return spec in ("current", "list-with-current", "list-spaces")
 
 
-CASES = [("PUT", "If-Match"), ("PUT", "If-None-Match"), ("DELETE", "If-Match"), ("GET", "If-None-Match"), ("HEAD", "If-None-Match")]
+# PUT-same uploads exactly the bytes the server currently serves (a no-op rewrite), PUT-reordered the same object with
+# its properties in another order: shortcuts for "unchanged" uploads must not bypass the preconditions
+CASES = [("PUT", "If-Match"), ("PUT", "If-None-Match"), ("PUT-same", "If-Match"), ("PUT-same", "If-None-Match"), ("DELETE", "If-Match"), ("GET", "If-None-Match"), ("HEAD", "If-None-Match")]
 
 
 def _one_group(args):
@@ -90,7 +92,8 @@ def _one_group(args):
     s = None
     twin = None
     try:
-        for (method, header) in CASES:
+        for (mcase, header) in CASES:
+            method = "PUT" if mcase.startswith("PUT") else mcase
             for spec in VALUES:
                 if s is None:
                     s = build()
@@ -105,6 +108,10 @@ def _one_group(args):
                 hv = header_value(spec, cur, stale, other)
                 url = s.url("cal", "a.ics")
                 body = B.ALL_BODIES["X2"] if method == "PUT" else b""
+                if mcase == "PUT-same":
+                    if not exists:
+                        continue
+                    body = a0["cal"]["bodies"]["a.ics"]
                 hdrs = {header: hv}
                 if method == "PUT":
                     hdrs["Content-Type"] = B.CT_ICS
@@ -114,8 +121,9 @@ def _one_group(args):
                 stats["cases"] += 1
                 changed = DavSys.observable(a0["cal"]) != DavSys.observable(a1["cal"]) or DavSys.observable(a0["ab"]) != DavSys.observable(a1["ab"])
                 m = matches(spec, exists)
-                case = {"method": method, "header": header, "value_kind": spec, "value": hv, "status": st, "exists": exists}
-                stats["nontrivial"].add((method, header, spec, exists, st))
+                case = {"method": mcase, "header": header, "value_kind": spec, "value": hv, "status": st, "exists": exists}
+                stats["nontrivial"].add((mcase, header, spec, exists, st))
+                method_label = mcase
                 if r.status >= 500 or r.exc:
                     vio("server-error:%s:%s:%s" % (method, header, spec), "conditional request answered %s (%s)" % (r.status, r.exc), case)
                 if method in ("GET", "HEAD"):
@@ -149,11 +157,11 @@ def _one_group(args):
                 if cond is False:
                     ok_refusal = st == 412 or (method == "DELETE" and not exists and st == 404)
                     if not ok_refusal:
-                        vio("not-412:%s:%s:%s:%s:got%s" % (method, header, spec, "exists" if exists else "absent", st), "%s with failing %s (%s) answered %s, expected 412" % (method, header, spec, st), case)
+                        vio("not-412:%s:%s:%s:%s:got%s" % (mcase, header, spec, "exists" if exists else "absent", st), "%s with failing %s (%s) answered %s, expected 412" % (method, header, spec, st), case)
                     else:
                         stats["refused"] += 1
                     if changed:
-                        vio("failed-precondition-changed-state:%s:%s:%s:%s" % (method, header, spec, "exists" if exists else "absent"), "%s whose %s precondition failed changed the collection" % (method, header), case)
+                        vio("failed-precondition-changed-state:%s:%s:%s:%s" % (mcase, header, spec, "exists" if exists else "absent"), "%s whose %s precondition failed changed the collection" % (method, header), case)
                 else:
                     # condition true (or undefined): must be 412+unchanged only if undefined; else same as header-less twin
                     if cond is None and st == 412 and not changed:
@@ -167,7 +175,7 @@ def _one_group(args):
                         st2 = dav.effective_status(r2)
                         b1 = twin.audit()
                         if (st, DavSys.observable(a1["cal"])) != (st2, DavSys.observable(b1["cal"])):
-                            vio("differs-from-unconditional:%s:%s:%s:%s" % (method, header, spec, "exists" if exists else "absent"),
+                            vio("differs-from-unconditional:%s:%s:%s:%s" % (mcase, header, spec, "exists" if exists else "absent"),
                                 "%s with satisfied %s answered %s, the same request without the header answers %s (or the resulting states differ)" % (method, header, st, st2), case)
                         else:
                             stats["executed"] += 1
